@@ -91,6 +91,7 @@ type State struct {
 	ghost  map[string]*Term
 	epoch  int // number of havoc-all events so far
 	arank  int // allocation rank (monotone along a path)
+	eqs    map[string]*Term
 	locks  map[string]bool
 	defers []*ast.CallExpr
 	dead   bool
@@ -110,6 +111,12 @@ func (s *State) clone() *State {
 	for k, v := range s.locks {
 		n.locks[k] = v
 	}
+	if len(s.eqs) > 0 {
+		n.eqs = make(map[string]*Term, len(s.eqs))
+		for k, v := range s.eqs {
+			n.eqs[k] = v
+		}
+	}
 	n.pc = append([]*Term(nil), s.pc...)
 	n.defers = append([]*ast.CallExpr(nil), s.defers...)
 	return n
@@ -128,7 +135,66 @@ func (s *State) assume(t *Term) {
 	if t.isFalse() {
 		s.dead = true
 	}
+	// remember ground facts  X = literal  for later term normalisation
+	if t.Op == "=" && len(t.Args) == 2 && t.Sort == SBool {
+		a, b := t.Args[0], t.Args[1]
+		if a.IsLit && !b.IsLit {
+			a, b = b, a
+		}
+		if b.IsLit && !a.IsLit && a.Sort == SInt && a.Size() < 40 {
+			if s.eqs == nil {
+				s.eqs = map[string]*Term{}
+			}
+			s.eqs[a.String()] = b
+		}
+	}
 	s.pc = append(s.pc, t)
+}
+
+// normInt rewrites an Int term with the literal equalities known on this path.
+func (s *State) normInt(t *Term) *Term {
+	if len(s.eqs) == 0 || t.IsLit {
+		return t
+	}
+	for i := 0; i < 4; i++ {
+		n := replaceSub(t, s.eqs, map[*Term]*Term{})
+		if n == t {
+			break
+		}
+		t = n
+	}
+	return t
+}
+
+func replaceSub(t *Term, m map[string]*Term, memo map[*Term]*Term) *Term {
+	if t.IsLit {
+		return t
+	}
+	if r, ok := memo[t]; ok {
+		return r
+	}
+	var res *Term
+	if r, ok := m[t.String()]; ok && r.Sort == t.Sort {
+		res = r
+	} else if len(t.Args) == 0 || t.Op == "forall" || t.Op == "exists" {
+		res = t
+	} else {
+		na := make([]*Term, len(t.Args))
+		changed := false
+		for i, a := range t.Args {
+			na[i] = replaceSub(a, m, memo)
+			if na[i] != a {
+				changed = true
+			}
+		}
+		if changed {
+			res = rebuild(t, na)
+		} else {
+			res = t
+		}
+	}
+	memo[t] = res
+	return res
 }
 
 type flowKind int
@@ -161,14 +227,16 @@ type Oblig struct {
 	MustSat bool // vacuity checks: expected sat
 	Mode    string
 	// results
-	Verdict  string // unsat sat unknown
-	Solver   string
-	Ms       int64
-	Model    string
-	Outputs  map[string]string
-	Script   string
-	Bounded  string
-	replayed bool
+	Verdict   string // unsat sat unknown
+	Solver    string
+	Ms        int64
+	Model     string
+	Outputs   map[string]string
+	Script    string
+	Bounded   string
+	replayed  bool
+	paramIn   map[string]*Term
+	Candidate bool // Model is a candidate from a weakened query (to be confirmed by replay)
 }
 
 // ---------------- verifier ----------------
@@ -223,6 +291,7 @@ type Verifier struct {
 	resStack       [][]*types.Var
 	sweep          bool
 	caseLabel      string
+	axiomSet       map[*Term]bool
 	obligeHook     func(s *State, g *Term)
 	nQueries       int
 	defArrays      []*winInfo
@@ -254,6 +323,11 @@ func (v *Verifier) oblige(s *State, class, label string, goal *Term, p token.Pos
 		v.obligeHook(s, goal)
 		return
 	}
+	// an equality of arrays is proved pointwise at a fresh index (extensionality)
+	if goal.Op == "=" && len(goal.Args) == 2 && strings.HasPrefix(goal.Args[0].Sort, "(Array Int ") && class != "vacuity" {
+		k := v.fresh("ext", SInt)
+		goal = Eq(Select(goal.Args[0], k), Select(goal.Args[1], k))
+	}
 	// a conjunction is proved conjunct by conjunct
 	if goal.Op == "and" && !goal.IsLit && len(goal.Args) > 1 && class != "vacuity" {
 		for i, g := range goal.Args {
@@ -277,7 +351,7 @@ func (v *Verifier) oblige(s *State, class, label string, goal *Term, p token.Pos
 	if v.counter[key] > 1 {
 		name = fmt.Sprintf("%s/%d", name, v.counter[key])
 	}
-	o := &Oblig{Name: name, Class: class, Func: v.fnName, PC: append([]*Term(nil), s.pc...), Goal: goal, Pos: v.pos(p), Desc: desc, Mode: v.mode, Props: v.curProps}
+	o := &Oblig{Name: name, Class: class, Func: v.fnName, PC: append([]*Term(nil), s.pc...), Goal: goal, Pos: v.pos(p), Desc: desc, Mode: v.mode, Props: v.curProps, paramIn: v.paramIn}
 	v.obligs = append(v.obligs, o)
 }
 
@@ -534,6 +608,7 @@ var maxLen = new(big.Int).Lsh(big.NewInt(1), 48)
 func (v *Verifier) sliceWF(s *State, x *Term) *Term {
 	return And(
 		Lt(SBase(x), s.alloc),
+		Le(Mul(IntLit(-64), s.alloc), SBase(x)),
 		Le(IntLit(0), SOff(x)), Le(IntLit(0), SLen(x)), Le(SLen(x), SCap(x)), Le(SCap(x), IntLitB(maxLen)),
 		Le(SOff(x), IntLitB(maxLen)),
 		Implies(Eq(SBase(x), IntLit(0)), And(Eq(SLen(x), IntLit(0)), Eq(SCap(x), IntLit(0)), Eq(SOff(x), IntLit(0)))),
@@ -770,6 +845,20 @@ func (v *Verifier) olderThan(s *State, t *Term) (int, bool) {
 	return best, ok
 }
 
+// fieldBaseRefRank: t = fieldBase(r, k) for a reference r allocated in this function.
+func (v *Verifier) fieldBaseRefRank(t *Term) (int, bool) {
+	if t.Op != "+" || t.IsLit {
+		return 0, false
+	}
+	for _, a := range t.Args {
+		if a.Op == "*" && len(a.Args) == 2 && a.Args[0].isInt() && a.Args[0].Int.Cmp(big.NewInt(-64)) == 0 {
+			r, ok := v.refRank[a.Args[1].String()]
+			return r, ok
+		}
+	}
+	return 0, false
+}
+
 func isFieldBase(t *Term) bool {
 	if t.Op != "+" || t.IsLit {
 		return false
@@ -794,6 +883,17 @@ func (v *Verifier) distinctRefs(s *State, a, b *Term) bool {
 	}
 	if aNew && isFieldBase(b) || bNew && isFieldBase(a) {
 		return true
+	}
+	// field array of an object allocated in this function vs. an older base
+	if ra2, ok := v.fieldBaseRefRank(a); ok {
+		if ob, ok := v.olderThan(s, b); ok && ra2 >= ob {
+			return true
+		}
+	}
+	if rb2, ok := v.fieldBaseRefRank(b); ok {
+		if oa, ok := v.olderThan(s, a); ok && rb2 >= oa {
+			return true
+		}
 	}
 	if aNew {
 		if ob, ok := v.olderThan(s, b); ok && ra >= ob {
